@@ -69,6 +69,10 @@ def cases(tier):
                  nr=nr, cutoff=6.5, nrho=nrho, cutoff_rho=100.0)
         for route in ('cls', 'cfg', 'potable'):
             out.append(dict(m=m, route=route, spelling='setfl'))
+    # structured 5- and 6-element models, every route
+    for m in EK.big_models(False, tier):
+        for route in ('cls', 'proc', 'cfg', 'potable'):
+            out.append(dict(m=m, route=route, spelling='setfl'))
     # histories: a model with [Species] overrides is built first, then the same elements without overrides
     for els in (['Al'], ['Al', 'Cu'], ['Fe', 'Ni', 'Al']):
         for route in ('cfg', 'potable', 'cls'):
